@@ -9,6 +9,7 @@ lengths needing 1, 2 and 3 index symbols.  For every input the encoder accepts w
 import itertools
 
 from mc import enum_smiles as E2
+from mc import enum_strings as E1
 from mc.oracles import misc
 from mc.runner import Result, h64
 
@@ -82,6 +83,13 @@ def plan(tier, seed):
     for n in range(3, n2 + 1):
         for pi, _ in enumerate(E2.parent_vectors(n)):
             tasks.append(("two-ring-bonds-with-orders", ("tworings", n, pi)))
+    RAW = ["C", "O", "=", "(", ")", "1", "2", "/"]
+    Lr = 8 if thorough else 7
+    scopes.append({"name": "raw-token-strings", "alphabet": RAW, "bound_L": Lr, "tree_size": E1.tree_size(len(RAW), Lr),
+                   "desc": "every concatenation of raw SMILES tokens (most are not SMILES at all): whatever the encoder accepts - valid "
+                           "or not - must give a decodable SELFIES string that is stable under re-encoding", "table": RELAXED})
+    for sh in E1.shard_prefixes(RAW, Lr, 2):
+        tasks.append(("raw-token-strings", ("raw", Lr, sh)))
     from mc.props import c06
     scopes.append({"name": "aromatic-under-tight-tables", "skeletons": c06.AROM, "substituents": ["", "C", "F", "=O", "O"],
                    "tables": list(c06.ARO_TABLES),
@@ -113,7 +121,7 @@ def plan(tier, seed):
     for k in range(0, len(spans), 16):
         tasks.append(("index-spans", ("spans", spans[k:k + 16])))
     return {"scopes": scopes, "tasks": tasks, "bounds": {"topology": [nt, rt], "lenient_n": nl, "ba_n": nb},
-            "weight": lambda t: (t[1][1][-1] if t[1][0] == "spans" else (t[1][1] if t[1][0] not in ("grid", "elements", "digits", "arom") else 5))}
+            "weight": lambda t: (t[1][1][-1] if t[1][0] == "spans" else (t[1][1] if t[1][0] not in ("grid", "elements", "digits", "arom", "raw") else 5))}
 
 
 _SF = None
@@ -216,6 +224,14 @@ def run(task):
                 for bts in itertools.product(["", "=", "/", "\\"], repeat=n - 1):
                     smi = E2.write(n, par, rings, at, [""] + list(bts), ring_tok={rings[0]: rs})
                     last = (smi, check(smi, RELAXED, r))
+    elif kind == "raw":
+        RAW = ["C", "O", "=", "(", ")", "1", "2", "/"]
+        for w in E1.nodes(RAW, arg[1], arg[2]):
+            if not w:
+                continue
+            smi = "".join(w)
+            r.states += 1
+            last = (smi, check(smi, RELAXED, r))
     elif kind == "arom":
         from mc.props import c06
         for smi in sorted(c06.aromatic_variants(c06.AROM[arg[1]])):
